@@ -44,6 +44,45 @@ CONTRACTS = [
              trusted_reason="parses the COND file of the identifier (C15) and materialises the task: present afterwards with its declared deps, "
                             "TaskNotFound iff no such definition; other ConductorErrors for malformed definitions"),
 
+    # ------------------------------------------------------------------ _materialize_raw_task (C02: deps listed once; C20: relative deps)
+    Contract("ext::TaskType.from_raw_task", params={"identifier": "TaskIdentifier", "raw_task": "Dict[str,Seq[str]]#rawin", "deps": "List[TaskIdentifier]#mdeps"},
+             returns="TaskType", fresh_result=True,
+             ensures=["result._identifier == identifier", "seq_len(result._deps) == seq_len(deps)",
+                      "forall(k, 'int', implies(0 <= k and k < seq_len(deps), select(result._deps, k) == select(deps, k)))"],
+             raises={"ConductorError+": []},
+             trusted_reason="TaskType.from_raw_task dispatches on the task type and builds the task with exactly this identifier and this dependency list (constructor field assignments)"),
+    Contract(F + "::TaskIndex._materialize_raw_task", params={"identifier": "TaskIdentifier", "raw_task": "Dict[str,Seq[str]]#rawin"},
+             returns="TaskType", props=["C02", "C20", "C14"],
+             locals={"task_deps": "List[TaskIdentifier]#mdeps", "task_deps_set": "Set[TaskIdentifier]#mdset"},
+             modifies=["$alloc", "ConductorError.file_context_set", "ConductorError.extra_context_set", "new@rawin"],
+             ensures=[
+                 C("identifier_kept", "result._identifier == identifier", "C20"),
+                 C("caller_dict_untouched", "forall(key, 'str', (key in raw_task) == old(key in raw_task) and implies(key in raw_task, raw_task[key] == old(raw_task[key])))", "C15"),
+                 C("one_dependency_per_listed_string_in_order",
+                   "implies('deps' in raw_task, seq_len(result._deps) == seq_len(raw_task['deps'])) and implies(not ('deps' in raw_task), seq_len(result._deps) == 0)", "C02"),
+                 C("dependencies_listed_once",
+                   "forall(i, 'int', forall(k, 'int', implies(0 <= i and i < k and k < seq_len(result._deps), select(result._deps, i) != select(result._deps, k))))", "C02"),
+                 C("relative_dependency_resolves_against_the_listing_directory",
+                   "implies('deps' in raw_task, forall(k, 'int', implies(0 <= k and k < seq_len(raw_task['deps']) and select(raw_task['deps'], k).startswith(':'),"
+                   " select(result._deps, k)._path == identifier._path and select(raw_task['deps'], k) == ':' + select(result._deps, k)._name)))", "C20"),
+                 C("absolute_dependency_is_a_prefixed_identifier_of_the_grammar",
+                   "implies('deps' in raw_task, forall(k, 'int', implies(0 <= k and k < seq_len(raw_task['deps']) and not select(raw_task['deps'], k).startswith(':'),"
+                   " in_re(select(raw_task['deps'], k), 'ident') and select(raw_task['deps'], k).startswith('//')"
+                   " and select(raw_task['deps'], k).endswith(':' + select(result._deps, k)._name))))", "C20"),
+             ],
+             raises={"ConductorError+": []},
+             loops={0: Loop(header="for dep in raw_task['deps']:", index="n",
+                            modifies=["list@task_deps", "set@task_deps_set", "$alloc"],
+                            invariant=[
+                                C("one_per_string", "seq_len(task_deps) == n"),
+                                C("set_is_the_list", "forall(x, 'TaskIdentifier', (x in task_deps_set) == exists(i, 'int', 0 <= i and i < n and select(task_deps, i) == x))"),
+                                C("distinct_so_far", "forall(i, 'int', forall(k, 'int', implies(0 <= i and i < k and k < n, select(task_deps, i) != select(task_deps, k))))"),
+                                C("relative_resolved", "forall(k, 'int', implies(0 <= k and k < n and select(raw_task['deps'], k).startswith(':'),"
+                                                       " select(task_deps, k)._path == identifier._path and select(raw_task['deps'], k) == ':' + select(task_deps, k)._name))"),
+                                C("absolute_parsed", "forall(k, 'int', implies(0 <= k and k < n and not select(raw_task['deps'], k).startswith(':'),"
+                                                     " in_re(select(raw_task['deps'], k), 'ident') and select(raw_task['deps'], k).startswith('//') and select(raw_task['deps'], k).endswith(':' + select(task_deps, k)._name)))"),
+                            ])}),
+
     Contract(F + "::TaskIndex.load_transitive_closure", params={"task_identifier": "TaskIdentifier"}, props=["C14", "C02"],
              locals={"identifiers_to_load": "List[%s]#tostk" % ID_FLAG, "visited_identifiers": "Set[TaskIdentifier]#visid", "curr_path": "Set[TaskIdentifier]#cpath"},
              requires=[C("closure_predicate", "Reach(task_identifier) and forall(t, 'TaskIdentifier', implies(Reach(t) and Defined(t),"
